@@ -252,11 +252,12 @@ fn parse_duration<V: AsRef<str> + Into<String>>(
         Err(e) => return Err(TypedResponseError::invalid_value(field, value.into()).source(e)),
     };
 
-    // Check if the parsed value is a reasonable duration, to avoid a panic from `from_secs_f64`
-    if v >= 0.0 && v <= Duration::MAX.as_secs_f64() && v.is_finite() {
-        Ok(Duration::from_secs_f64(v))
-    } else {
-        Err(TypedResponseError::invalid_value(field, value.into()))
+    // Negative, non-finite or too large values are errors and must not panic. A range check
+    // against `Duration::MAX` is not enough here: as a float it rounds up to 2^64 seconds, which
+    // `from_secs_f64` cannot represent.
+    match Duration::try_from_secs_f64(v) {
+        Ok(duration) => Ok(duration),
+        Err(e) => Err(TypedResponseError::invalid_value(field, value.into()).source(e)),
     }
 }
 
